@@ -9,8 +9,11 @@
 (* 1296 descriptors: the complete decision table of 8.12.9.                  *)
 (* Mode "hist": histories over both objects and both names from empty        *)
 (* objects with the descriptor family HistDescs.                             *)
-EXTENDS Val, Json, TLC
-CONSTANTS Mode, OpenDev, MaxLen
+(* Mode "forin": ENUMERATION WHILE MUTATING (12.6.4): the step   *)
+(* is one for-in statement whose body performs scheduled object-model        *)
+(* operations at chosen iterations; see the section "for-in" below.          *)
+EXTENDS Val, Json, TLC, SequencesExt
+CONSTANTS Mode, OpenDev, MaxLen, Seed, NSample
 VARIABLES heap, hist, init
 
 S == INSTANCE ObjModel WITH Dev <- {}
@@ -144,6 +147,239 @@ Expect(useDev, H, a) ==
     IN  [thr |-> r.thr, ret |-> r.ret, log |-> r.log, obs |-> Obs(r.H)]
 
 -----------------------------------------------------------------------------
+(* for-in: ENUMERATION WHILE MUTATING (12.6.4).                                           *)
+(* The step [op |-> "forin", e, sched] is the statement                                   *)
+(*     for (K in e) { visit K;  i++;  perform every sched[j].a with sched[j].k = i }      *)
+(* over four names; sched is sorted by k, so the heap after i iterations depends on i     *)
+(* only: HP[j] = heap after the first j-1 scheduled operations.                           *)
+(* What 12.6.4 (with the creation order the property statement adds) DETERMINES:          *)
+(*   - no name is visited twice;                                                          *)
+(*   - a name that is not a property of e when its turn comes (deleted before it was      *)
+(*     visited) is not visited;                                                           *)
+(*   - a name that never was an enumerable, unshadowed property of e is not visited;      *)
+(*   - a STABLE name (in every heap so far an enumerable unshadowed property of e held    *)
+(*     by the same object: never deleted, hidden, shadowed or unshadowed) must be         *)
+(*     visited, and the stable names are visited in the order of the plain enumeration.   *)
+(* What it leaves OPEN (existential here): a name that exists now, was enumerable and     *)
+(* unshadowed at some time, but is not stable (added or re-added during the loop, its     *)
+(* enumerable attribute or its shadowing changed, inherited copy uncovered by a delete)   *)
+(* may be visited at any later iteration or not at all.                                   *)
+(* ForInAlts is the set of all visit sequences these rules admit.                         *)
+N_s == <<115>>
+Names4 == <<S_p, S_q, S_r, N_s>>
+NameSet4 == {S_p, S_q, S_r, N_s}
+SeqRange(s) == {s[i] : i \in 1..Len(s)}
+
+ObsObj4(H, o) ==
+    [ext |-> H[o].ext, sealed |-> S!IsSealed(H, o), frozen |-> S!IsFrozen(H, o),
+     names |-> S!OwnNames(H, o), keys |-> S!OwnKeys(H, o), forin |-> S!ForIn(H, o),
+     pr |-> [i \in 1..4 |->
+              LET p == Names4[i]
+              IN  [own |-> IF S!HasOwn(H, o, p) THEN S!OwnProp(H, o, p) ELSE [k |-> "none"],
+                   isin |-> S!HasProperty(H, o, p),
+                   get |-> GetVal(S!GetReq, H, o, p)]]]
+Obs4(H) == [i \in 1..3 |-> ObsObj4(H, AllObjs[i])]
+
+RECURSIVE HeapsAfter(_, _)
+HeapsAfter(H, acts) ==
+    IF acts = <<>> THEN <<H>> ELSE <<H>> \o HeapsAfter(Apply(FALSE, H, Head(acts)).H, Tail(acts))
+
+(* number of scheduled operations performed after i complete iterations (sched sorted by k) *)
+NRun(sched, i) ==
+    LET J == {j \in 1..Len(sched) : sched[j].k <= i}
+    IN  IF J = {} THEN 0 ELSE CHOOSE j \in J : \A x \in J : x <= j
+
+FCtx(H0, a) ==
+    LET acts == [j \in 1..Len(a.sched) |-> a.sched[j].a]
+        hp   == HeapsAfter(H0, acts)
+    IN  [e |-> a.e, sched |-> a.sched, acts |-> acts, HP |-> hp, ref |-> S!ForIn(H0, a.e),
+         fi |-> [j \in 1..Len(hp) |-> SeqRange(S!ForIn(hp[j], a.e))]]
+
+FNow(cx, i)     == NRun(cx.sched, i) + 1
+FVis(cx, j, n)  == n \in cx.fi[j]
+FHold(cx, j, n) == S!GetProp(cx.HP[j], cx.e, n).holder
+FStable(cx, i, n) ==
+    /\ FVis(cx, 1, n)
+    /\ \A j \in 1..FNow(cx, i) : FVis(cx, j, n) /\ FHold(cx, j, n) = FHold(cx, 1, n)
+FOpen(cx, i, n) ==
+    /\ S!HasProperty(cx.HP[FNow(cx, i)], cx.e, n)
+    /\ \E j \in 1..FNow(cx, i) : FVis(cx, j, n)
+    /\ ~FStable(cx, i, n)
+
+(* after the visits W: the names that may be visited next, and whether the loop may end here *)
+FStep(cx, W) ==
+    LET i  == Len(W)
+        st == SelectSeq(cx.ref, LAMBDA n : n \notin SeqRange(W) /\ FStable(cx, i, n))
+        op == {n \in NameSet4 \ SeqRange(W) : FOpen(cx, i, n)}
+    IN  [nx |-> (IF st = <<>> THEN {} ELSE {st[1]}) \cup op, stop |-> st = <<>>]
+RECURSIVE FAlts(_, _)
+FAlts(cx, W) ==
+    LET f    == FStep(cx, W)
+        cont == UNION {FAlts(cx, Append(W, n)) : n \in f.nx}
+    IN  IF f.stop THEN {W} \cup cont ELSE cont
+
+(* the whole observable outcome for a visit sequence W: the operations that ran (k <= Len(W)), *)
+(* their results, and the state of the three objects afterwards                                 *)
+FOutcome(cx, W) ==
+    LET nr == NRun(cx.sched, Len(W))
+    IN  [visits |-> W,
+         ops |-> [j \in 1..nr |-> LET r == Apply(FALSE, cx.HP[j], cx.acts[j])
+                                  IN  [thr |-> r.thr, ret |-> r.ret, log |-> r.log]],
+         obs |-> Obs4(cx.HP[nr + 1])]
+
+(* Named deviations (open findings).  The implementation walks the chain object by object over *)
+(* a snapshot of each object's names taken when the walk reaches it, visits a name that is an   *)
+(* enumerable own property of that object at that moment, and suppresses shadowed names and     *)
+(* repeats ONLY through the set of names each earlier object has WHEN THE WALK LEAVES IT:       *)
+(*   D07_forin_revisits_unshadowed_name: a name visited on an object and deleted from it before *)
+(*     the walk leaves that object is visited again on a deeper object that has an enumerable   *)
+(*     property of that name (12.6.4: no name is visited twice);                                *)
+(*   D07_forin_stale_shadow_set: a property given to an object the walk has already left does   *)
+(*     not shadow: a name that at no time was an enumerable unshadowed property of e is visited *)
+(*     on a deeper object (12.6.4: a shadowed property of a prototype is not enumerated).       *)
+(* Walk is that mechanism with one branch per deviation (without them: repeats are suppressed   *)
+(* by the visited names too, shadowing is looked up in the objects as they are too; that walk   *)
+(* is one of the strictly admitted ones).  The deviating                                        *)
+(* expectation admits, besides the strict outcomes, the outcome of Walk, provided every visit   *)
+(* of it is either admitted by the strict rules or is exactly what an OPEN deviation describes. *)
+DRevisit == "D07_forin_revisits_unshadowed_name" \in OpenDev
+(* Maintainer: the second is NOT kept as a finding.  Whether a property that the body ADDS to an object the walk has   *)
+(* already left shadows a deeper one is not settled by 12.6.4 (it speaks of properties the previous object "has", and  *)
+(* leaves additions during the enumeration open), so both walks are admitted always: a choice left open, no deviation. *)
+DStale   == TRUE
+RECURSIVE WalkNames(_, _, _, _)
+WalkNames(cx, o, ns, st) ==      \* st = [W, shadow (names of the objects left), before (objects left), dr, ds]
+    IF ns = <<>> THEN st
+    ELSE LET H   == cx.HP[FNow(cx, Len(st.W))]
+             n   == Head(ns)
+             vis == /\ S!HasOwn(H, o, n) /\ S!OwnProp(H, o, n).e
+                    /\ n \notin st.shadow
+                    /\ (st.ds \/ \A b \in st.before : ~S!HasOwn(H, b, n))      \* ds: D07_forin_stale_shadow_set
+                    /\ (st.dr \/ n \notin SeqRange(st.W))                      \* dr: D07_forin_revisits_unshadowed_name
+         IN  WalkNames(cx, o, Tail(ns), IF vis THEN [st EXCEPT !.W = Append(@, n)] ELSE st)
+RECURSIVE Walk(_, _, _)
+Walk(cx, o, st) ==
+    IF o = 0 THEN st.W
+    ELSE LET H0 == cx.HP[FNow(cx, Len(st.W))]
+             s1 == WalkNames(cx, o, H0[o].order, st)
+             H1 == cx.HP[FNow(cx, Len(s1.W))]
+         IN  Walk(cx, H1[o].proto, [s1 EXCEPT !.shadow = @ \cup DOMAIN H1[o].props, !.before = @ \cup {o}])
+
+RECURSIVE ChainSet(_, _)
+ChainSet(H, o) == IF o = 0 THEN {} ELSE {o} \cup ChainSet(H, H[o].proto)
+(* the visit of n after the visits W is what an open deviation describes *)
+DevVisit(cx, W, n) ==
+    LET H  == cx.HP[FNow(cx, Len(W))]
+        en == {o \in ChainSet(H, cx.e) : S!HasOwn(H, o, n) /\ S!OwnProp(H, o, n).e}
+    IN  \/ DRevisit /\ n \in SeqRange(W) /\ en # {}
+        \/ DStale /\ n \notin SeqRange(W) /\ \E o \in en : S!GetProp(H, cx.e, n).holder # o
+DevAdmits(cx, W) ==
+    /\ \A t \in 1..Len(W) :
+          LET pre == SubSeq(W, 1, t - 1) IN W[t] \in FStep(cx, pre).nx \/ DevVisit(cx, pre, W[t])
+    /\ FStep(cx, W).stop
+
+(* [es, ed]: the strict expectation and the one under the open deviations (cx is a bound value). *)
+(* Each subset of the open deviations gives one walk (a repaired finding that is still listed    *)
+(* must not turn the outcomes explained by the other into alarms).                               *)
+ForInExpect(cx) ==
+    LET ws == FAlts(cx, <<>>)
+        dw == {Walk(cx, cx.e, [W |-> <<>>, shadow |-> {}, before |-> {}, dr |-> f[1], ds |-> f[2]]) :
+                  f \in {g \in BOOLEAN \X BOOLEAN : (g[1] => DRevisit) /\ (g[2] => DStale) /\ (g[1] \/ g[2])}}
+        es == [alts |-> {FOutcome(cx, W) : W \in ws}]
+        ad == {W \in dw \ ws : DevAdmits(cx, W)}
+    IN  [es |-> es, ed |-> IF ad = {} THEN es ELSE [alts |-> es.alts \cup {FOutcome(cx, W) : W \in ad}]]
+
+(* ---- the cases: initial objects are built by a path of defineProperty steps ---- *)
+KindDesc(kd) ==
+    CASE kd = "e" -> DD(IntV(1), TRUE, TRUE, TRUE)          \* plain
+      [] kd = "h" -> DD(IntV(1), TRUE, FALSE, TRUE)         \* hidden: not enumerable (still shadows)
+      [] kd = "f" -> DD(IntV(1), TRUE, TRUE, FALSE)         \* fixed: delete fails
+      [] kd = "a" -> [S!EmptyDesc EXCEPT !.hg = TRUE, !.g = G1, !.hs = TRUE, !.s = S1,
+                                         !.he = TRUE, !.e = TRUE, !.hc = TRUE, !.c = TRUE]
+(* lay[i] = the slots <<[o, kd], ...>> of name i; perm = creation order of the names *)
+RECURSIVE BuildPath(_, _)
+BuildPath(lay, perm) ==
+    IF perm = <<>> THEN <<>>
+    ELSE LET i == Head(perm)
+         IN  IF lay[i] = <<>> THEN BuildPath(lay, Tail(perm))
+             ELSE [j \in 1..Len(lay[i]) |->
+                      [op |-> "define", o |-> lay[i][j].o, n |-> Names4[i], d |-> KindDesc(lay[i][j].kd)]]
+                  \o BuildPath(lay, Tail(perm))
+RECURSIVE RunPath(_, _)
+RunPath(H, path) == IF path = <<>> THEN H ELSE RunPath(Apply(FALSE, H, Head(path)).H, Tail(path))
+
+(* the exhaustive core of mode "forin": every distribution of four plain names over child and    *)
+(* parent, both creation orders; one operation {delete, assign, hide, (re)define} on any    *)
+(* name of either object at any iteration, enumerating the child or the parent              *)
+CoreInitPaths ==
+    {BuildPath([i \in 1..4 |-> <<[o |-> IF m[i] THEN CO ELSE PO, kd |-> "e"]>>], perm) :
+        m \in [1..4 -> BOOLEAN], perm \in {<<1, 2, 3, 4>>, <<4, 3, 2, 1>>}}
+CoreInitPathSeq == SetToSeq(CoreInitPaths)
+CoreOps ==
+    {[op |-> "delete", o |-> o, n |-> n] : o \in Objs, n \in NameSet4}
+    \cup {[op |-> "assign", o |-> o, n |-> n, v |-> IntV(1)] : o \in Objs, n \in NameSet4}
+    \cup {[op |-> "define", o |-> o, n |-> n, d |-> d] : o \in Objs, n \in NameSet4,
+              d \in {[S!EmptyDesc EXCEPT !.he = TRUE, !.e = FALSE], DD(IntV(1), TRUE, TRUE, TRUE)}}
+CoreForIns ==
+    {[op |-> "forin", e |-> e, sched |-> <<[k |-> k, a |-> a]>>] : e \in Objs, k \in 1..4, a \in CoreOps}
+
+(* the sampled product of mode "forin": case c of NSample draws, from a reproducible stream,    *)
+(* for every name and each of the three objects absent | plain | hidden | fixed | accessor, *)
+(* a creation order (any of the 24), possibly preventExtensions/seal/freeze of one object,  *)
+(* the enumerated object, and a schedule of one to three operations (delete, assign, define *)
+(* with any descriptor of HistDescs, seal/freeze/preventExtensions) on any object and name  *)
+(* at nondecreasing iterations                                                              *)
+(* the stream of case c: two small linear congruential generators combined (all products < 2^31) *)
+RECURSIVE RndGen(_, _, _, _)
+RndGen(x, y, n, acc) ==
+    IF n = 0 THEN acc
+    ELSE RndGen((x * 75 + 74) % 65537, (y * 32719 + 3) % 32749, n - 1, Append(acc, x * 31 + y))
+RndStream(c) ==
+    LET x0 == ((c % 65521) * 7 + Seed * 101 + 1) % 65537
+        y0 == ((c \div 13) * 3 + Seed * 17 + 5) % 32749
+    IN  SubSeq(RndGen(x0, y0, 36, <<>>), 5, 36)          \* the first draws are discarded
+PermOf(x) ==
+    LET s4 == <<1, 2, 3, 4>>
+        a  == (x % 4) + 1
+        s3 == RemoveAt(s4, a)
+        b  == ((x \div 4) % 3) + 1
+        s2 == RemoveAt(s3, b)
+        cc == ((x \div 12) % 2) + 1
+    IN  <<s4[a], s3[b], s2[cc], RemoveAt(s2, cc)[1]>>
+SlotKind(v) == CASE v % 10 < 4 -> "" [] v % 10 < 7 -> "e" [] v % 10 = 7 -> "h" [] v % 10 = 8 -> "f" [] OTHER -> "a"
+RndLayout(rs) ==
+    [i \in 1..4 |->
+        LET sl == [x \in 1..3 |-> [o |-> AllObjs[x], kd |-> SlotKind(rs[(i - 1) * 3 + x])]]
+        IN  SelectSeq(sl, LAMBDA r : r.kd # "")]
+RndTail(rs) ==
+    LET v == rs[14]
+        o == AllObjs[((v \div 8) % 3) + 1]
+    IN  CASE v % 8 = 0 -> <<[op |-> "prevent", o |-> o]>> [] v % 8 = 1 -> <<[op |-> "freeze", o |-> o]>>
+          [] v % 8 = 2 -> <<[op |-> "seal", o |-> o]>> [] OTHER -> <<>>
+RndInitPath(rs) == BuildPath(RndLayout(rs), PermOf(rs[13] % 24)) \o RndTail(rs)
+
+HistDescSeq == SetToSeq(HistDescs)
+RndOp(rs, j) ==
+    LET o  == AllObjs[(rs[j] % 3) + 1]
+        n  == Names4[(rs[j + 1] % 4) + 1]
+        kd == rs[j + 2] % 16
+        v  == rs[j + 3]
+    IN  CASE kd < 5  -> [op |-> "delete", o |-> o, n |-> n]
+          [] kd < 7  -> [op |-> "assign", o |-> o, n |-> n, v |-> IntV((v % 2) + 1)]
+          [] kd < 15 -> [op |-> "define", o |-> o, n |-> n, d |-> HistDescSeq[(v % Len(HistDescSeq)) + 1]]
+          [] OTHER   -> [op |-> <<"seal", "freeze", "prevent">>[(v % 3) + 1], o |-> o]
+RndForIn(rs) ==
+    LET ve == rs[15] % 10
+        e  == IF ve < 5 THEN CO ELSE IF ve < 9 THEN PO ELSE GO
+        vm == rs[16] % 5
+        m  == IF vm < 2 THEN 1 ELSE IF vm < 4 THEN 2 ELSE 3
+        k1 == (rs[17] % 3) + 1
+        k2 == k1 + (rs[18] % 3)
+        k3 == k2 + (rs[19] % 2)
+        ks == <<k1, k2, k3>>
+    IN  [op |-> "forin", e |-> e, sched |-> [j \in 1..m |-> [k |-> ks[j], a |-> RndOp(rs, 16 + 4 * j)]]]
+
+-----------------------------------------------------------------------------
 TableActions == {[op |-> "define", o |-> CO, n |-> S_p, d |-> d] : d \in AllDescs \cup BadFnDescs}
 
 HistActions ==
@@ -189,7 +425,15 @@ InitTable ==
                        !.order = IF ps.k = "none" THEN <<>> ELSE <<S_p>>]]
         /\ hist = <<>>
 InitHist == heap = Heap0 /\ hist = <<>> /\ init = [p |-> [k |-> "none"], ext |-> TRUE]
-Init == IF Mode = "table" THEN InitTable ELSE IF Mode = "sv" THEN InitSV ELSE InitHist
+(* for-in modes: the objects are built by a path of ordinary steps, which the replay performs too *)
+(* for-in mode: one initial state per case block (an initial path of the exhaustive core, or one *)
+(* sampled case); all the work is done in Next, on the worker threads                          *)
+NCore == Len(CoreInitPathSeq)
+InitForIn ==
+    \E c \in 1..(NCore + NSample) :
+        init = [p |-> [k |-> "none"], ext |-> TRUE, c |-> c] /\ hist = <<>> /\ heap = Heap0
+Init == CASE Mode = "table" -> InitTable [] Mode = "sv" -> InitSV [] Mode = "forin" -> InitForIn
+          [] OTHER -> InitHist
 
 Step(a) ==
     LET r  == Apply(FALSE, heap, a)
@@ -201,13 +445,29 @@ Step(a) ==
         /\ PrintT("VJSON " \o ToJson([init |-> init, path |-> hist, step |-> a, exp |-> es,
                                         dev |-> IF ed = es THEN <<>> ELSE <<ed>>]))
 
-Next == /\ Len(hist) < MaxLen
-        /\ \E a \in (CASE Mode = "table" -> TableActions [] Mode = "sv" -> SVActions
+(* the for-in step from the objects built by path pa: the expectation is the SET of admitted   *)
+(* outcomes (exp.alts).  Values are bound through singleton sets so that they are computed once *)
+StepForIn(pa, a) ==
+    \E H0 \in {RunPath(Heap0, pa)} : \E cx \in {FCtx(H0, a)} : \E x \in {ForInExpect(cx)} :
+        /\ heap' = cx.HP[Len(cx.HP)]              \* the model continues with every operation performed
+        /\ hist' = Append(pa, a)
+        /\ UNCHANGED init
+        /\ PrintT("VJSON " \o ToJson([init |-> init, path |-> pa, step |-> a, exp |-> x.es,
+                                        dev |-> IF x.ed = x.es THEN <<>> ELSE <<x.ed>>]))
+
+Next == \/ Mode = "forin" /\ hist = <<>> /\ init.c <= NCore
+           /\ \E a \in CoreForIns : StepForIn(CoreInitPathSeq[init.c], a)
+        \/ Mode = "forin" /\ hist = <<>> /\ init.c > NCore
+           /\ \E rs \in {RndStream(init.c - NCore)} :
+                  \E pa \in {RndInitPath(rs)}, a \in {RndForIn(rs)} : StepForIn(pa, a)
+        \/ /\ Mode # "forin"
+           /\ Len(hist) < MaxLen
+           /\ \E a \in (CASE Mode = "table" -> TableActions [] Mode = "sv" -> SVActions
                           [] Mode = "chain" -> ChainActions [] Mode = "order" -> OrderActions [] OTHER -> HistActions) : Step(a)
 
 (* mode "order" keeps the history in the view: the implementation's property list may depend on  *)
 (* the PATH (names deleted and created again), so every path is replayed, not one per state   *)
-View == IF Mode = "order" THEN <<heap, hist>> ELSE <<heap, <<>>>>
+View == IF Mode = "order" THEN <<heap, hist>> ELSE IF Mode = "forin" THEN <<heap, hist, init>> ELSE <<heap, <<>>>>
 vars == <<heap, hist, init>>
 
 -----------------------------------------------------------------------------
